@@ -9,8 +9,10 @@ import json
 import multiprocessing
 import os
 import random
+import signal
 import subprocess
 import sys
+import threading
 import time
 from collections import Counter
 
@@ -41,6 +43,19 @@ def load_known():
     return {e["id"]: e for e in data.get("findings", [])}
 
 
+class WatchdogTimeout(BaseException):
+    """Wall-clock safety net (harness error, never a VIOLATION).  Derives from
+    BaseException so that no `except Exception` in the library or the harness
+    can swallow it."""
+
+
+CASE_WALL_S = 180
+
+
+def _on_alarm(signum, frame):
+    raise WatchdogTimeout("a single simulated run exceeded %d s of wall-clock time" % CASE_WALL_S)
+
+
 def _props_of(entry):
     return entry.get("properties") or [entry.get("property")]
 
@@ -62,6 +77,8 @@ def run_units(prop, stream, seed, indices, deadline=None, keep_failures=12, want
     isolate = hasattr(eng, "block_start")
     if isolate:
         eng.block_start()
+    if threading.current_thread() is threading.main_thread():
+        signal.signal(signal.SIGALRM, _on_alarm)
     executed = []
     for i in indices:
         if deadline is not None and time.time() > deadline:
@@ -73,7 +90,11 @@ def run_units(prop, stream, seed, indices, deadline=None, keep_failures=12, want
         agg["units"] += 1
         udig = []
         for ci, case in enumerate(cases):
-            res = eng.execute(case)
+            signal.alarm(CASE_WALL_S)
+            try:
+                res = eng.execute(case)
+            finally:
+                signal.alarm(0)
             if isolate:
                 executed.append(case)
             agg["evaluations"] += 1
